@@ -414,9 +414,11 @@ def date(year, month_, day):
     # first of that month: Excel's calendar has 1900/02/29 as serial 60
     year += (month_ - 1) // 12
     month_ = (month_ - 1) % 12 + 1
-    if not (dt.MINYEAR <= year <= dt.MAXYEAR):
-        return NUM_ERROR
-    result = (dt.datetime(year, month_, 1) - DATE_ZERO).days
+    # the carried year may be outside what datetime supports, so count
+    # within the 400 year (146097 day) cycle of the calendar
+    cycles, year = divmod(year - 1, 400)
+    result = (dt.datetime(year + 1, month_, 1) - DATE_ZERO).days
+    result += cycles * 146097
     if result <= 60:
         result -= 1
     result += day - 1
